@@ -89,15 +89,23 @@ impl<'a> Exec<'a> {
             None => return,
         };
         self.out.polls += 1;
-        {
+        let poll_start = {
             let mut g = lock(&self.w);
             g.steps = 0;
+            g.sink_pending_in_poll = false;
             let n = self.out.polls;
             g.ev.push(Ev::EnvPoll(n));
-        }
+            g.tick()
+        };
         self.flag.0.store(false, Ordering::SeqCst);
         let mut cx = Context::from_waker(&self.waker);
         let r = catch_unwind(AssertUnwindSafe(|| fut.as_mut().poll(&mut cx)));
+        {
+            let mut g = lock(&self.w);
+            let e = g.tick();
+            let blocked = g.sink_pending_in_poll;
+            g.polls.push((poll_start, e, blocked));
+        }
         match r {
             Ok(Poll::Pending) => lock(&self.w).ev.push(Ev::Returned("Pending")),
             Ok(Poll::Ready(())) => {
@@ -222,6 +230,21 @@ impl<'a> Exec<'a> {
                 Act::Depart(i) => {
                     let mut g = lock(&self.w);
                     g.streams[i].depart = true;
+                    let c = g.tick();
+                    g.streams[i].depart_clock.get_or_insert(c);
+                    // a departing peer takes its whole connection with it: the sink half
+                    // answers errors from now on instead of staying pending for ever
+                    let mut sink_waker = None;
+                    for s in g.sinks.iter_mut() {
+                        if s.pair == Some(i) && s.failed.is_none() {
+                            s.failed = Some(c);
+                            s.blocked = false;
+                            sink_waker = s.waker.take();
+                        }
+                    }
+                    if let Some(wk) = sink_waker {
+                        wk.wake();
+                    }
                     let l = g.streams[i].label.clone();
                     g.ev.push(Ev::EnvDepart(l));
                     let wk = g.streams[i].waker.take();
